@@ -1,9 +1,11 @@
 package c19
 
 import (
+	"encoding/binary"
 	"fmt"
 	"math/big"
 	"os"
+	"sort"
 	"strings"
 	"sync"
 	"testing"
@@ -191,4 +193,64 @@ func TestC19_SingleNibble(t *testing.T) {
 	if n != 64*15+2*32*15 {
 		t.Fatalf("enumeration incomplete: %d", n)
 	}
+}
+
+// TestC19_LongLists: the two builds must also agree on long multi-scalar
+// lists -- one request on, before and after every power of two up to 2^15 and
+// every integer constant in the library's sources (a build-specific batching
+// or capping threshold is such a constant), each with the receiver somewhere
+// in the list, in both the constant-time and the variable-time routine.  The
+// list is built inside the servers (multimult.chain), so a request is a few
+// bytes.  Only the assembly and the portable server are compared here: the
+// slower extra configurations would take minutes on 2^15 terms.
+func TestC19_LongLists(t *testing.T) {
+	a, p := servers(t)
+	lens := map[int]bool{}
+	for k := 9; k <= 15; k++ {
+		for d := -1; d <= 1; d++ {
+			lens[1<<k+d] = true
+		}
+	}
+	for _, v := range gen.SourceIntLiterals(300, 70000) {
+		for d := -1; d <= 1; d++ {
+			lens[v+d] = true
+		}
+	}
+	var sorted []int
+	for n := range lens {
+		sorted = append(sorted, n)
+	}
+	sort.Ints(sorted)
+	k := ref.B32(ref.Mod(ref.Int([]byte("verif/c19/long-lists/k")), ref.N))
+	for i, n := range sorted {
+		var nb, rb [4]byte
+		binary.BigEndian.PutUint32(nb[:], uint32(n))
+		rcv := uint32(0xffffffff)
+		switch i % 3 { // receiver: fresh, the last element, one in the middle
+		case 1:
+			rcv = uint32(n - 1)
+		case 2:
+			rcv = uint32(n / 2)
+		}
+		binary.BigEndian.PutUint32(rb[:], rcv)
+		vartime := byte(i % 2)
+		line := opclient.Line("multimult.chain", nb[:], k, []byte(fmt.Sprintf("seed-%d", n)), rb[:], []byte{vartime})
+		var ra, rp opclient.Reply
+		var ea, ep error
+		var wg sync.WaitGroup
+		wg.Add(2)
+		go func() { defer wg.Done(); ra, ea = a.CallLine(line) }()
+		go func() { defer wg.Done(); rp, ep = p.CallLine(line) }()
+		wg.Wait()
+		if ea != nil || ep != nil {
+			t.Fatalf("%v / %v", ea, ep)
+		}
+		stat.Case("long-lists", []string{fmt.Sprintf("vartime:%d", vartime), fmt.Sprintf("receiver-in-list:%v", rcv != 0xffffffff)}, true, []byte(line), func() any {
+			return map[string]any{"terms": n, "receiver_index": int32(rcv), "vartime": vartime == 1}
+		})
+		if ra.Status != "ok" || ra.Key() != rp.Key() {
+			t.Fatalf("assembly and purego builds disagree on a %d-term multi-scalar multiplication (receiver index %d, vartime=%d):\n  asm:    %.200s\n  purego: %.200s", n, int32(rcv), vartime, ra.Key(), rp.Key())
+		}
+	}
+	stat.Exhaustive("long-lists")
 }
